@@ -106,7 +106,10 @@ theorem F128_Int_Mul_eq (M P : W) (f v : F) (hM : Mult M.toInt) :
 when_translated Gen.F128_Int_Div in
 theorem F128_Int_Div_eq (M P : W) (f v : F) (hv : v.data.toInt ≠ 0) :
     F128.div M.toInt f.data.toInt v.data.toInt = some (Gen.F128_Int_Div M P f v).data.toInt := by
-  fq_tie [Gen.F128_Int_Div, F128_multiplier_eq, hv] [F128.div, if_neg hv]
+  first
+  | fq_tie [Gen.F128_Int_Div, F128_multiplier_eq, hv] [F128.div, if_neg hv]
+  | -- the product written the other way round (`mult.Mul(f.data)`)
+    fq_tie [Gen.F128_Int_Div, F128_multiplier_eq, hv] [F128.div, if_neg hv, F128.mulI, Int.mul_comm M.toInt]
 when_translated Gen.F128_Int_Trunc in
 theorem F128_Int_Trunc_eq (M P : W) (f : F) (hM : Mult M.toInt) :
     (Gen.F128_Int_Trunc M P f).data.toInt = F128.trunc M.toInt f.data.toInt := by
